@@ -47,6 +47,11 @@ depend on earlier calls -/
 def charOfByte (s : Bytes) (off : Nat) : Option Nat :=
   (charOfByteStateful (byteCharNew s) off).1
 
+/-- `Match::new` with the REPAIRED offset lookup (design/fixes/C13-regex-capture-order.diff) -/
+def matchNewFixed (s : Bytes) (c : Cap) : Option RMatch :=
+  let str := (s.drop c.start).take (c.stop - c.start)
+  (charOfByte s c.start).map fun off => { offset := off, length := strLength str, string := str, name := c.name }
+
 /-- `Match::new` -/
 def matchNew (s : Bytes) (bc : ByteChar) (c : Cap) : Option RMatch × ByteChar :=
   let (o, bc') := charOfByteStateful bc c.start
@@ -86,5 +91,41 @@ def regexLoop (s : Bytes) (g n mi ma : Bool) : ByteChar → Nat → List (List C
 
 def regexParts (s : Bytes) (g n mi ma : Bool) (caps : List (List Cap)) : Option (List Part) :=
   regexLoop s g n mi ma (byteCharNew s) 0 caps
+
+/-! ## REPAIRED BEHAVIOUR (design/fixes/C13-regex-capture-order.diff) — integrator switch
+
+`regexOffsetsRepaired = false`: the driver answers with the code as it is (`regexParts`: shared
+forward-only iterator, `none` = panic when a group starts before the previously looked-up one).
+Set it to `true` once the fix is applied to /repo: the driver then answers with
+`regexPartsRepaired`, whose offset lookup does not depend on earlier lookups. -/
+
+def regexOffsetsRepaired : Bool := false
+
+def matchesOfRepaired (s : Bytes) : List Cap → Option (List RMatch)
+  | [] => some []
+  | c :: cs =>
+    match matchNewFixed s c, matchesOfRepaired s cs with
+    | some m, some ms => some (m :: ms)
+    | _, _ => none
+
+def regexLoopRepaired (s : Bytes) (g n mi ma : Bool) : Nat → List (List Cap) → Option (List Part)
+  | last, [] => some (if mi then [.mismatch (s.drop last)] else [])
+  | last, [] :: rest => regexLoopRepaired s g n mi ma last rest
+  | last, (whole :: groups) :: rest =>
+    if n ∧ whole.start = whole.stop then regexLoopRepaired s g n mi ma last rest
+    else
+      let pre := if mi then [Part.mismatch ((s.drop last).take (whole.start - last))] else []
+      let last' := if mi then whole.stop else last
+      let tail : Option (List Part) :=
+        if g then regexLoopRepaired s g n mi ma last' rest
+        else some (if mi then [.mismatch (s.drop last')] else [])
+      if ma then
+        match matchesOfRepaired s (whole :: groups) with
+        | none => none
+        | some ms => tail.map fun t => pre ++ [.matches ms] ++ t
+      else tail.map fun t => pre ++ t
+
+def regexPartsRepaired (s : Bytes) (g n mi ma : Bool) (caps : List (List Cap)) : Option (List Part) :=
+  regexLoopRepaired s g n mi ma 0 caps
 
 end Jaq.C13
